@@ -172,7 +172,7 @@ static int parse_tok(char *s, tok_t *t) {
     if (s[len - 1] != ']') return -1;
     t->kind = T_VEC; s[len - 1] = 0; s++;
     long cnt = 0; for (char *p = s; *p; p++) if (*p == ',') cnt++;
-    t->d = calloc(cnt + 2, sizeof(mp_limb_t)); t->n = 0;
+    t->d = calloc(cnt + 1 > 1 ? cnt + 1 : 1, sizeof(mp_limb_t)); t->n = 0;   /* exact size (cnt+1 limbs): an over-read is visible to ASan */
     if (!*s) return 0;
     char *save, *p = strtok_r(s, ",", &save);
     while (p) { if (strlen(p) > 16 || !*p) return -1; mp_limb_t v = 0; for (; *p; p++) { int h = hexv(*p); if (h < 0) return -1; v = v << 4 | h; } t->d[t->n++] = v; p = strtok_r(NULL, ",", &save); }
